@@ -20,6 +20,8 @@ type Violation struct {
 
 func (v Violation) ID() string { return v.Property + "/" + v.Class + "/" + v.Key }
 
+const maxEvents = 2000000
+
 type event struct {
 	seq  uint64
 	text string
@@ -108,6 +110,9 @@ func (r *Run) Counters() []int64 { return r.counters }
 // Ev records an event.  Never draws, never reads a clock.
 func (l *Log) Ev(format string, args ...interface{}) uint64 {
 	seq := l.run.NextSeq()
+	if seq > maxEvents {
+		panic("harness: runaway run (more than 2M events); a workload loop does not terminate on this tape")
+	}
 	l.ev = append(l.ev, event{seq, fmt.Sprintf(format, args...)})
 	return seq
 }
